@@ -171,6 +171,27 @@ def run_case(i, tier):
                     kw = dict(m=m, quota=q, simultaneous=sim, tiebreak=tb)
                     compare_alias(i, "SequentialRCV", kw, E("SequentialRCV", case, kw),
                                   E("STV", case, dict(kw, transfer="full")), cnt, out, "STV(full-weight transfer)")
+    # ---- documented default arguments: a rule built from the profile alone equals the rule with its defaults spelled out ----
+    from votekit import elections as VE
+
+    def bare(cls_name):
+        def fn():
+            vkit.reset_steps()
+            return getattr(VE, cls_name)(vkit.mk_profile(case))
+        return fn
+
+    defaults = [
+        ("STV", dict(m=1, quota="droop", simultaneous=True, tiebreak=None, transfer="fractional")),
+        ("SequentialRCV", dict(m=1, quota="droop", simultaneous=True, tiebreak=None)),
+        ("IRV", dict(quota="droop", tiebreak=None)),
+        ("Plurality", dict(m=1, tiebreak=None)), ("SNTV", dict(m=1, tiebreak=None)), ("Borda", dict(m=1, tiebreak=None)),
+        ("CondoBorda", dict(m=1)),
+    ]
+    if n >= 2:
+        defaults += [("TopTwo", dict(tiebreak=None)),
+                     ("Alaska", dict(m_1=2, m_2=1, quota="droop", simultaneous=True, tiebreak=None, transfer="fractional"))]
+    for rule, kw in defaults:
+        compare_alias(i, rule + "(defaults)", kw, bare(rule), E(rule, case, kw), cnt, out, "the documented defaults spelled out")
     # ---- TopTwo ------------------------------------------------------------------------
     if n >= 2:
         for tb in common.TBS:
